@@ -100,7 +100,12 @@ class Monitor:
                                       {"data": tuple(cell.get())}, "frame-data")
             if sid == touched and sp.log and st._field is not None:
                 for k, (t, cell) in enumerate(sp.log):
-                    f = st[k]
+                    try:
+                        f = st[k]
+                    except Exception as e:  # noqa: BLE001
+                        return self._fail("storage[i] raised for a stored frame",
+                                          {"storage": sid, "frame": k, "error": f"{type(e).__name__}: {e}"},
+                                          {"data": tuple(cell.get())}, "read-raised")
                     if flat(f.data) != tuple(cell.get()):
                         return self._fail("storage[i] differs from the data of the field when it was appended",
                                           {"storage": sid, "frame": k, "data": flat(f.data)},
